@@ -285,18 +285,22 @@ def task_find_closest(prop, tier, seed):
 # structures
 
 
-def structures(tier, seed):
+def structures(tier, seed, prop="C01"):
     """(n, edges, m): reference graph and target size"""
     out = []
     for es in H.all_graphs_with_anchor(3):
         out.append((3, es, 1))
         out.append((3, es, 2))
     g4 = list(H.all_graphs_with_anchor(4))
-    if tier == "quick":
+    if tier == "quick" and prop in ("C01", "C03"):
+        # every labelled graph on 4 atoms with an atom of degree >= 2 (54 graphs), one target atom
+        for g in g4:
+            out.append((4, sorted(g), 1))
+    elif tier == "quick":
         rng = np.random.default_rng(11 + seed)
         conn = [g for g in g4 if _connected(4, g)]
         pick = [conn[i] for i in rng.choice(len(conn), 10, replace=False)]
-        # always include the path, the star, the ring, the complete graph and one disconnected graph
+        # always include the path, the star, the ring, the complete graph and disconnected graphs
         must = [[(0, 1), (1, 2), (2, 3)], [(0, 1), (0, 2), (0, 3)], [(0, 1), (1, 2), (2, 3), (0, 3)],
                 [(0, 1), (0, 2), (0, 3), (1, 2), (1, 3), (2, 3)], [(0, 1), (1, 2)], [(0, 2), (0, 3), (1, 2)]]
         seen = set()
@@ -347,7 +351,7 @@ def closest_stub_factory(c):
     return stub, picks
 
 
-def glue_paths(n, edges, m, second=None, junk_frames=False, max_paths=300, extra_pre=(), also_first=False, small=None):
+def glue_paths(n, edges, m, second=None, junk_frames=False, max_paths=48, extra_pre=(), also_first=False, small=None):
     """Runs the real ExchangeMap(ref, tgt, s) and then __call__ on (a) the same configuration (second=None),
     (b) a configuration produced by second(c, P) -> object array.  Returns (paths, ref, tgt)."""
     X = _X()
@@ -390,7 +394,7 @@ def glue_paths(n, edges, m, second=None, junk_frames=False, max_paths=300, extra
                 "shares": shares, "res": res, "arg": arg, "picks": picks}
 
     pre = [SV > 0, SV <= 2] + distinct_pre("p", n) + list(extra_pre)
-    paths = S.explore(run, assumptions=pre, max_paths=max_paths, feas_timeout_ms=1000)
+    paths = S.explore(run, assumptions=pre, max_paths=max_paths, feas_timeout_ms=400)
     return paths, ref, tgt
 
 
@@ -452,7 +456,7 @@ def task_law(prop, part, nparts, tier, seed):
     lem_obs, lemma_ok = law_lemma(f"{prop}/lemma")
     if part == 0:
         out += lem_obs
-    for (n, edges, m) in structures(tier, seed)[part::nparts]:
+    for (n, edges, m) in structures(tier, seed, prop)[part::nparts]:
         sid = _sid(n, edges, m)
         try:
             paths, ref, tgt = glue_paths(n, edges, m)
@@ -601,7 +605,7 @@ def task_deform(prop, part, nparts, tier, seed):
     lem_obs, lemma_ok = norm_lemmas(f"{prop}/lemma")
     if part == 0:
         out += lem_obs
-    for (n, edges, m) in structures(tier, seed)[part::nparts]:
+    for (n, edges, m) in structures(tier, seed, prop)[part::nparts]:
         sid = _sid(n, edges, m)
         try:
             paths, ref, tgt = glue_paths(n, edges, m, second=_second_fresh)
@@ -758,7 +762,7 @@ def task_rigid(prop, part, nparts, tier, seed):
         out += l1 + l2
     so3 = spec.is_rotation_hyps(RM)
     small = [(2, [(0, 1)], 1), (2, [(0, 1)], 2), (1, [], 1), (1, [], 2)]
-    for si, (n, edges, m) in enumerate((small + structures(tier, seed))[part::nparts]):
+    for si, (n, edges, m) in enumerate((small + structures(tier, seed, prop))[part::nparts]):
         sid = _sid(n, edges, m)
         axis_script = True
         try:
@@ -1039,7 +1043,7 @@ def task_history(prop, part, nparts, tier, seed):
     the construction molecules untouched; result is a new object."""
     out = []
     tag = f"{prop}/ExchangeMap.__call__"
-    for (n, edges, m) in structures(tier, seed)[part::nparts]:
+    for (n, edges, m) in structures(tier, seed, prop)[part::nparts]:
         sid = _sid(n, edges, m)
         try:
             paths, ref, tgt = glue_paths(n, edges, m, second=_second_fresh, junk_frames=True)
@@ -1455,25 +1459,25 @@ def tasks(prop, tier, seed):
         t.append(("find_closest", task_find_closest, (prop, tier, seed), 1200.0))
         nparts = 12 if tier == "quick" else 48
         for p in range(nparts):
-            t.append((f"law/part{p}", task_law, (prop, p, nparts, tier, seed), 1500.0))
+            t.append((f"law/part{p}", task_law, (prop, p, nparts, tier, seed), 240.0 if tier == "quick" else 1500.0))
         t.append(("numeric", task_numeric_law, (prop, tier, seed), 900.0))
     if prop == "C02":
         nparts = 12 if tier == "quick" else 48
         for p in range(nparts):
-            t.append((f"rigid/part{p}", task_rigid, (prop, p, nparts, tier, seed), 1500.0))
+            t.append((f"rigid/part{p}", task_rigid, (prop, p, nparts, tier, seed), 240.0 if tier == "quick" else 1500.0))
         t.append(("numeric", task_numeric_generic, (prop, tier, seed), 900.0))
         t.append(("calcule_base/equivariance", task_cb_equivariance, (prop, seed), 900.0))
     if prop == "C04":
         nparts = 12 if tier == "quick" else 48
         for p in range(nparts):
-            t.append((f"history/part{p}", task_history, (prop, p, nparts, tier, seed), 1500.0))
+            t.append((f"history/part{p}", task_history, (prop, p, nparts, tier, seed), 240.0 if tier == "quick" else 1500.0))
         t.append(("numeric", task_numeric_generic, (prop, tier, seed), 900.0))
         from . import b04_history
         t += b04_history.bounded_tasks(prop, tier, seed)
     if prop == "C03":
         nparts = 12 if tier == "quick" else 48
         for p in range(nparts):
-            t.append((f"deform/part{p}", task_deform, (prop, p, nparts, tier, seed), 1500.0))
+            t.append((f"deform/part{p}", task_deform, (prop, p, nparts, tier, seed), 240.0 if tier == "quick" else 1500.0))
         t.append(("numeric", task_numeric_generic, (prop, tier, seed), 900.0))
     return t
 
